@@ -277,6 +277,23 @@ func (e errMissingDependencies) Format(w fmt.State, c rune) {
 	formatError(e, w, c)
 }
 
+// describeValue renders a value that was given where a function was expected.
+// Only values of basic kinds are printed. A value that holds references may
+// refer back to itself (a slice or map that contains itself), and printing it
+// with %v would recurse until the stack overflows; such values are described
+// by their kind only.
+func describeValue(v interface{}) string {
+	switch k := reflect.TypeOf(v).Kind(); k {
+	case reflect.Bool, reflect.String,
+		reflect.Int, reflect.Int8, reflect.Int16, reflect.Int32, reflect.Int64,
+		reflect.Uint, reflect.Uint8, reflect.Uint16, reflect.Uint32, reflect.Uint64, reflect.Uintptr,
+		reflect.Float32, reflect.Float64, reflect.Complex64, reflect.Complex128:
+		return fmt.Sprint(v)
+	default:
+		return fmt.Sprintf("a %v", k)
+	}
+}
+
 // isMissingDependencies reports whether err, as returned by a constructor
 // or decorator node, means that dig itself could not find the dependencies
 // of a function somewhere below it.
